@@ -105,6 +105,10 @@ class HookFault(Exception):
     pass
 
 
+class OpRuntimeError(OpError, RuntimeError):
+    """An operation failure that is also a RuntimeError (as many driver errors are)."""
+
+
 class FalsyOpError(OpError):
     """An exception object whose bool() is False (e.g. an empty aggregate error)."""
 
@@ -251,6 +255,9 @@ DEFAULT_CFG = {
     "strat_obj": False,
     "rec_durs": [0],             # ticks spent inside the strategy object's record_failure (menu)
     "abort_kind": "method",      # "falsy-object": abort_if is a callable object whose bool() is False
+    "callable_kind": "plain",    # "falsy": handler / before_sleep / sleeper are callable objects whose
+                                 # bool() is False (an empty queue that is itself the handler)
+    "hook_dur": 0,               # ticks every on_metric / on_log invocation takes
     "async_awaitables": False,   # C12: async variants get awaitable-object sleeper / before_sleep
     "ok_awaitable": False,       # async: a successful attempt returns an awaitable *object* (a handle)          # strategies are objects exposing record_success / record_failure
     "loop": False,               # async entry points run as Tasks on the virtual event loop
@@ -591,7 +598,7 @@ class World:
             if d == "BAD":
                 return "sleep-ish"
             return SleepDecision[d]
-        return handler
+        return self._falsy(handler)
 
     def make_before_sleep(self, which):
         world = self
@@ -610,12 +617,12 @@ class World:
                 world.fault("before_sleep")
             if self.cfg["awaitable"] == "object":
                 return lambda ctx, delay: AwaitObj(lambda: before_sleep_async(ctx, delay))
-            return before_sleep_async
+            return self._falsy(before_sleep_async)
 
         def before_sleep(ctx, delay):
             world.trace.append(("bsleep", which, getattr(ctx, "attempt", None), ticks(delay)))
             world.fault("before_sleep")
-        return before_sleep
+        return self._falsy(before_sleep)
 
     def _do_sleep(self, which, s):
         t0 = self.rel()
@@ -671,18 +678,36 @@ class World:
                 world._do_sleep(which, s)
             if self.cfg["awaitable"] == "object":
                 return lambda s: AwaitObj(lambda: sleeper_async(s))
-            return sleeper_async
+            return self._falsy(sleeper_async)
 
         def sleeper(s):
             world._do_sleep(which, s)
-        return sleeper
+        return self._falsy(sleeper)
+
+    def _falsy(self, fn):
+        if self.cfg["callable_kind"] != "falsy":
+            return fn
+
+        class EmptyQueueCallable:
+            """A callable object that is falsy (``len() == 0``)."""
+
+            def __len__(self):
+                return 0
+
+            def __call__(self, *a, **kw):
+                return fn(*a, **kw)
+        return EmptyQueueCallable()
 
     def on_metric(self, event, attempt, sleep_s, tags):
+        if self.cfg["hook_dur"] and not self._nesting:
+            E.advance(self.cfg["hook_dur"] * TAU)
         self.trace.append(("metric", event, attempt, ticks(sleep_s), tuple(sorted(tags.items()))))
         self.maybe_nest("metric")
         self.fault("metric")
 
     def on_log(self, event, fields):
+        if self.cfg["hook_dur"] and not self._nesting:
+            E.advance(self.cfg["hook_dur"] * TAU)
         self.trace.append(("log", event, tuple(sorted((k, ticks(v) if isinstance(v, float) else v)
                                                       for k, v in fields.items()))))
         self.fault("log")
@@ -779,6 +804,14 @@ class World:
                 raise CircuitOpenError("open")
             except CircuitOpenError:
                 _raise_here(exc)
+        if kind == "xR":
+            exc = OpRuntimeError(f"op{n}:{rest}")
+            exc.spec = (rest, None)
+            code = STATUS_FOR.get(rest)
+            if code is not None:
+                exc.status = code
+            self._rec_op(("op", n, "x:" + rest, t0, t1, self.reg(exc)))
+            _raise_here(exc)
         if kind == "xf":
             exc = FalsyOpError(f"op{n}:{rest}")
             exc.spec = (rest, None)
